@@ -77,12 +77,23 @@ def run_case(c, full):
         h = hash(json.dumps([c["a"], c["b"]])) % len(sigs)
         sigs = [sigs[0], sigs[h], sigs[-1]]
     for sig in sigs:
-        for backend in ("obj", "np", "akarr", "akrec"):
+        for backend in ("obj", "np", "akarr", "akrec", "np-gm", "np-mg", "obj+np", "np+obj"):
             flavor = "momentum" if (len(sig) + len(backend)) % 2 else "generic"
             # arrays: element 0 is the pair under test, element 1 an identical pair
-            A = build(backend, flavor, sig, [a, a])
-            B = build(backend, "generic" if backend != "np" else flavor, sig, [b, a])
-            for name, (kind, thunk) in forms(backend, A, B, rtol, atol).items():
+            if backend in ("obj", "np", "akarr", "akrec"):
+                A = build(backend, flavor, sig, [a, a])
+                B = build(backend, "generic" if backend != "np" else flavor, sig, [b, a])
+                fbackend = backend
+            else:
+                # mixed flavors / mixed backends: which operand's hook NumPy consults must not matter
+                fa, fb = {"np-gm": ("generic", "momentum"), "np-mg": ("momentum", "generic"), "obj+np": (flavor, "momentum"),
+                          "np+obj": ("generic", flavor)}[backend]
+                A = build("obj" if backend == "obj+np" else "np", fa, sig, [a, a])
+                B = build("obj" if backend == "np+obj" else "np", fb, sig, [b, a] if backend != "np+obj" else [b])
+                fbackend = "np"
+            for name, (kind, thunk) in forms(fbackend, A, B, rtol, atol).items():
+                if backend == "obj+np" and name == "allclose:method":
+                    continue      # object vectors have no allclose method
                 if backend == "akrec" and name in KNOWN_RECORD_OPERATOR:
                     continue
                 calls += 1
@@ -100,6 +111,8 @@ def run_case(c, full):
                     continue
                 vals = tolist(out)
                 exp = [want[kind]] + ([{"eq": True, "ne": False, "close": True}[kind]] if len(vals) == 2 else [])
+                if backend == "np+obj":
+                    exp = [want[kind]] * len(vals)
                 if vals != exp:
                     recs.append(dict(base, kind="wrong-" + kind, got=vals, want=exp))
     return recs, calls
